@@ -125,3 +125,21 @@ Definition predict_files (sizes : list Z) (threshold : Z) (maxshard : option Z) 
 Definition range_eqb (a b : Z * Z) : bool := (fst a =? fst b) && (snd a =? snd b).
 Definition filedesc_eqb (a b : Z * list (Z * Z)) : bool :=
   (fst a =? fst b) && list_eqb range_eqb (snd a) (snd b).
+
+(* ---------- shard file names (_shard_filename.get_shard_filename) for a base already split into
+   stem (directory + name without the extension chain) and ext (the extension chain):
+   f"{name}-{idx:05d}-of-{total:05d}{ext}", or the base itself when there is a single shard.
+   Characters are code points (N). *)
+Fixpoint digits_fuel (fuel n : nat) (acc : list N) : list N :=
+  match fuel with
+  | O => acc
+  | S f =>
+      let acc' := N.of_nat (48 + n mod 10) :: acc in
+      if Nat.eqb (n / 10) 0 then acc' else digits_fuel f (n / 10) acc'
+  end.
+Definition digits (n : nat) : list N := digits_fuel (S n) n [].
+Definition pad5 (n : nat) : list N := let d := digits n in repeat 48%N (5 - length d) ++ d.
+
+Definition shard_name (stem ext : list N) (idx total : nat) : list N :=
+  if Nat.eqb total 1 then stem ++ ext
+  else stem ++ [45%N] ++ pad5 idx ++ [45%N; 111%N; 102%N; 45%N] ++ pad5 total ++ ext.
